@@ -33,7 +33,7 @@ func init() {
 			"Python seeking readers are compared only where the summary carries what they rely on (chunk indexes with repeated channels and schemas; attachment / metadata indexes)",
 			"for Python-written files, schemas/channels that no message refers to may be absent from the data section (the Python writer does not flush a trailing chunk holding only schema/channel records): definitions are checked for correctness and for presence when a message needs them",
 		},
-		batches: map[string]int{"quick": 32, "thorough": 200},
+		batches: map[string]int{"quick": 32, "thorough": 96},
 		checks:  map[string]int{"quick": 60, "thorough": 200},
 	}})
 	runner.Components["C16"] = map[string][]string{
